@@ -38,6 +38,18 @@ CHECKS = {
         design="5/C19",
         technique="Coq proof (Z arithmetic with lia/nia, list induction) + in-Coq exact correspondence",
         note="numpy.array_split section sizes and re.search on metacharacter-free strings are modelled assumptions validated by the correspondence; json round trip is library code."),
+    "C07": dict(
+        text=("Theorems over the reals for every grid shape, origin and positive cell size: cell2coord is the "
+              "centre of the cell numbered row by row from the top-left; every point of a cell's (closed-open) "
+              "footprint maps to it; coord2cell(cell2coord c) = c; every point outside the extent on any side "
+              "maps to -1 (refuted for the pinned kernel's truncation - fixed in /repo by a fix: commit); "
+              "cell2rowcol inverts row*ncols+col; neighbours are symmetric with mirrored slots k<->8-k, "
+              "off-grid -1; invalid cell numbers flagged. The same generic model runs in binary64 inside Coq "
+              "against the rebuilt kernels (exact), integer operations exhaustively on all shapes up to 5x5; "
+              "an exact rational oracle decides the float clauses (1e-9 margin) on the implementation."),
+        design="5/C07",
+        technique="Coq proof over R (floor lemmas, lia/nra) + in-Coq binary64 correspondence + exact rational oracle",
+        note="Out-of-range double->long long casts are modelled by their x86-64 result (-1 after the range test)."),
 }
 
 NOT_YET = "check not built yet in this session; planned with the same technique (DESIGN.md section 5/8)"
